@@ -329,6 +329,8 @@ class Interp(object):
                 return r
         if name in ('np', 'numpy'):
             return NPV
+        if name == 'object':
+            return Opaque('object')
         if name in ('copy', 'deepcopy'):
             def cp(v):
                 if isinstance(v, Vec):
@@ -1032,11 +1034,7 @@ class Interp(object):
                 return
             raise Undecided('local class %s' % s.name)
         if isinstance(s, ast.For):
-            it = self.ev(s.iter, scope, func)
-            if isinstance(it, PVec):
-                it = it.parts
-            if isinstance(it, SArr):
-                it = it.items
+            it = self.seq(self.ev(s.iter, scope, func))
             if not isinstance(it, (list, tuple, range)):
                 raise Undecided('loop over %r' % (it,))
             broke = False
@@ -1386,13 +1384,22 @@ class Interp(object):
             raise Undecided('starred expression')
         raise Undecided('expression %s' % type(n).__name__)
 
+    def seq(self, v):
+        """Python-level iteration of a model value."""
+        if isinstance(v, PVec):
+            return v.parts
+        if isinstance(v, SArr):
+            return v.items
+        mi = getattr(v, 'model_iter', None)
+        if mi is not None:
+            return mi()
+        return v
+
     def _elts(self, elts, scope, func):
         out = []
         for e in elts:
             if isinstance(e, ast.Starred):
-                v = self.ev(e.value, scope, func)
-                if isinstance(v, PVec):
-                    v = v.parts
+                v = self.seq(self.ev(e.value, scope, func))
                 out.extend(v)
             else:
                 out.append(self.ev(e, scope, func))
@@ -1402,9 +1409,7 @@ class Interp(object):
         if len(n.generators) != 1:
             raise Undecided('nested comprehension')
         g = n.generators[0]
-        it = self.ev(g.iter, scope, func)
-        if isinstance(it, PVec):
-            it = it.parts
+        it = self.seq(self.ev(g.iter, scope, func))
         if not isinstance(it, (list, tuple, range)):
             raise Undecided('comprehension over %r' % (it,))
         out = []
@@ -1544,6 +1549,9 @@ class Interp(object):
                     r, cls_) else False
         if l is None or r is None:
             return l is r
+        if getattr(l, 'model_eq', False) or getattr(r, 'model_eq', False):
+            # model values with a decidable structural equality
+            return bool(l == r)
         if isinstance(l, (str, bool, tuple)) or isinstance(r, (str, bool,
                                                                 tuple)):
             try:
@@ -1858,18 +1866,15 @@ class Interp(object):
                 return list(range(*args))
             raise Undecided('range of symbolic bound')
         if name == 'zip':
-            seqs = [a.parts if isinstance(a, PVec) else
-                    a.items if isinstance(a, SArr) else a for a in args]
+            seqs = [self.seq(a) for a in args]
             return [tuple(t) for t in zip(*seqs)]
         if name == 'enumerate':
-            a = args[0].parts if isinstance(args[0], PVec) else (
-                args[0].items if isinstance(args[0], SArr) else args[0])
+            a = self.seq(args[0])
             return [(i, v) for i, v in enumerate(a)]
         if name in ('tuple', 'list'):
             if not args:
                 return () if name == 'tuple' else []
-            a = args[0].parts if isinstance(args[0], PVec) else (
-                args[0].items if isinstance(args[0], SArr) else args[0])
+            a = self.seq(args[0])
             return tuple(a) if name == 'tuple' else list(a)
         if name == 'abs':
             v = args[0]
@@ -1951,6 +1956,9 @@ class Interp(object):
         return False
 
     def _isinst1(self, v, nm):
+        names = getattr(v, 'isinstance_names', None)
+        if names is not None:
+            return nm in names
         if isinstance(v, Inst):
             return self.model.is_subclass(v.ci, nm) if nm in \
                 self.model.classes else False
